@@ -28,6 +28,10 @@ type c17Op struct {
 	SendFail bool `json:"send_fails,omitempty"`
 	// Events: unsolicited audit records (sequence 0) queued ahead of this request's ACK
 	Events int `json:"unsolicited_records_before_ack,omitempty"`
+	// RecvFault (waitacks only): 1 = the first receive of the call fails hard (ENOBUFS); 2 = the ACKs are late:
+	// every receive of the call says EAGAIN. The call reports an error and forgets nothing: a later call finds
+	// every ACK still owed to it
+	RecvFault int `json:"receive_fault,omitempty"`
 }
 
 type c17Case struct {
@@ -53,6 +57,9 @@ func (k *c17Case) String() string {
 		}
 		if o.Events > 0 {
 			fmt.Fprintf(&sb, "(%d events first)", o.Events)
+		}
+		if o.RecvFault > 0 {
+			fmt.Fprintf(&sb, "(receive fault %d)", o.RecvFault)
 		}
 		if o.Kind == "getrules" {
 			fmt.Fprintf(&sb, "(%d)", o.N)
@@ -177,6 +184,29 @@ func c17Check(c *mon.Ctx, k *c17Case) {
 			outstanding = append(outstanding, pend{op.Errno, op.Events})
 			c.Add("nowait_requests", 1)
 		case "waitacks":
+			if op.RecvFault > 0 && len(outstanding) > 0 {
+				saved := sim.Queue
+				if op.RecvFault == 1 {
+					sim.Queue = append([]simkernel.Step{{Err: syscall.ENOBUFS}}, saved...)
+				} else {
+					sim.Queue = nil
+				}
+				err := cl.WaitForPendingACKs()
+				delivered := sim.NDeliver - deliv0
+				if op.RecvFault == 2 {
+					sim.Queue = saved
+				}
+				if err == nil {
+					fail("waitacks-fault-swallowed", "op %d: the receive failed (fault %d) while %d ACKs were outstanding, yet WaitForPendingACKs returned nil", i, op.RecvFault, len(outstanding))
+					return
+				}
+				if delivered != 0 {
+					fail("waitacks-fault-consumed", "op %d: %d datagrams were consumed by a WaitForPendingACKs whose first receive failed", i, delivered)
+					return
+				}
+				c.Add("waitacks_calls_with_receive_fault", 1)
+				continue // nothing consumed, nothing forgotten: the next call owes the same ACKs
+			}
 			err := cl.WaitForPendingACKs()
 			// reference: consume from the front up to and including the first failing ACK
 			want, wantErrno, wantDgrams := 0, 0, 0
@@ -388,6 +418,14 @@ func c17Gen(r *mon.Rand, withK4 bool) *c17Case {
 			outstanding++
 		case x < 60:
 			op = c17Op{Kind: "waitacks"}
+			if !withK4 && r.Chance(1, 12) {
+				op.RecvFault = 1
+				if r.Chance(1, 6) {
+					op.RecvFault = 2 // costs the library's own 10 x 50 ms of polling
+				}
+				k.Ops = append(k.Ops, op)
+				op = c17Op{Kind: "waitacks"} // and the call that finds everything still there
+			}
 			outstanding = 0 // approximately; errors leave some, the oracle tracks it exactly
 		case x < 75:
 			op = c17Op{Kind: "wait", Errno: mon.Pick(r, errnos)}
